@@ -506,7 +506,7 @@ pub fn run(args: &Args) {
     let mut pending_count = 0u64;
     let all_bases: &[Base] = &BASES;
     let plan: Vec<(&Space, usize, bool, &[Base])> = if quick {
-        vec![(&space, 4, false, all_bases), (&narrow, 5, false, &[Base::Head, Base::MidInit]), (&narrow, 6, false, &[Base::Fresh, Base::Mid]), (&narrow, 4, true, all_bases)]
+        vec![(&space, 4, false, all_bases), (&narrow, 5, false, &[Base::Head, Base::Mid, Base::MidInit]), (&narrow, 6, false, &[Base::Fresh]), (&narrow, 4, true, all_bases)]
     } else {
         vec![
             (&narrow, 7, false, all_bases),
@@ -592,7 +592,9 @@ pub fn run(args: &Args) {
         ("prefix_queries", stats.q_prefix.load(Relaxed)),
     ] {
         rep.count(k, v);
-        rep.require_nonzero(k);
+        if rep.violations().is_empty() {
+            rep.require_nonzero(k);
+        }
         rep.outcome(k, v);
     }
     rep.assume("derive(Debug) of LinearPerspective prints every field, so equal strings mean identical objects");
@@ -867,7 +869,9 @@ pub mod session {
         }
         rep.count("session_histories", seqs.len() as u64);
         rep.count("session_failed_steps_reverted", reverts.load(Relaxed));
-        rep.require_nonzero("session_failed_steps_reverted");
+        if rep.violations().is_empty() {
+            rep.require_nonzero("session_failed_steps_reverted");
+        }
         rep.set("session_space", json!({"operations": ops.len(), "depth_all_operations": depth, "depth_single_command_operations": depth_single, "histories": seqs.len()}));
         (seqs.len() as u64, steps)
     }
